@@ -5,7 +5,9 @@ SPEC = {
                 # the listener through the control message; only RS / RA pass the ICMPv6 filter
                 {"pkg": "internal/system", "test": "TestVerifRealOS", "newgo": True, "timeout": 300},
                 # real parallelism: listeners of several interfaces sharing one Context under floods of invalid messages
-                {"pkg": "internal/corerad", "test": "TestVerifParallel", "newgo": True, "timeout": 600, "arch386": [], "env": {"VERIF_PAR": "listeners"}}],
+                {"pkg": "internal/corerad", "test": "TestVerifParallel", "newgo": True, "timeout": 600, "arch386": [], "env": {"VERIF_PAR": "listeners"}},
+                # volume on the real Advertiser: > 2^16 invalid messages in a row, 300000 distinct sources (no memory per source)
+                {"pkg": "internal/corerad", "test": "TestVerifC09Flood", "newgo": True, "timeout": 600, "arch386": []}],
     "extra_corr_modules": ["Corr.C06"],
     "rule": "scripted Conn.ReadFrom sequences fed to the real Advertiser.Run and Monitor.Run under testing/synctest: all 256 hop "
             "limits; runs of 1..12 consecutive invalid messages of each of the 4 NDP types (beyond the 5-retry budget) followed by "
